@@ -80,6 +80,8 @@ def read_task(prop, cfg, tier, seed):
         for k in range(touched):
             b = b0 + k
             e = files.word_at("img", bat_off + 8 * (b + b // cr), 8, "le")
+            if cfg.get("force_partial"):
+                E.assume(e % 8 == spec.PARTIALLY_PRESENT)  # narrow configuration: only the sector-bitmap path
             if not fault:
                 E.assume(spec.valid_payload_state(e % 8, has_parent))
             if has_parent and not fault:
@@ -113,17 +115,28 @@ def read_task(prop, cfg, tier, seed):
             prefer=[count * ss <= 16 * MB] if block_size <= 8 * MB else [])
         ctx.scenario.wide = [sector >= 1 << 32, bat_off >= 1 << 40]
         if cfg.get("prime"):
+            E.structural_bytes_eq = True  # byte strings used as cache keys compare by (source, range)
             # C08 lemma 3: an arbitrary earlier request on the same object (real lru_cache in place) must not change
             # what this request returns
             s1 = E.var("prime_sector", 0, (1 << 46) // ss)
             c1 = E.var("prime_count", 1, cfg.get("prime_count", 1))
             E.assume((s1 + c1) * ss <= size)
+            if cfg.get("prime_same"):
+                E.assume(s1 == sector)  # the same request twice
+                E.assume(c1 == count)
             for k in range((cfg.get("prime_count", 1) + spb - 1) // spb + 1):
                 b = s1 // spb + k
                 e1 = files.word_at("img", bat_off + 8 * (b + b // cr), 8, "le")
                 E.assume(spec.valid_payload_state(e1 % 8, has_parent))
+                if cfg.get("force_partial"):
+                    E.assume(e1 % 8 == spec.PARTIALLY_PRESENT)
+                if has_parent:
+                    sb1 = files.word_at("img", bat_off + 8 * spec.bitmap_index(b, cr), 8, "le")
+                    E.assume(core.sym_or(e1 % 8 != spec.PARTIALLY_PRESENT, sb1 % 8 == 6))
             vars_.update(prime_sector=s1, prime_count=c1)
             obj.read_sectors(s1, c1)
+            if parent is not None:
+                del parent.calls[:]
         if via == "read_sectors":
             res = obj.read_sectors(sector, count)
         else:
